@@ -22,7 +22,22 @@ from .kernel import HarnessError
 Spec = dict[str, Any]
 
 
+_SHARED: dict[int, Any] = {}
+
+
 def build_initializer(init: Spec, shape: tuple[int, ...]) -> Any:
+    """``init["share"]``: initialisers with the same share id are one and the same *object* within
+    a circuit (what ``parameterization_to_factory`` does for all parameters it builds)."""
+    sid = init.get("share")
+    if sid is not None and sid in _SHARED:
+        return _SHARED[sid]
+    obj = _build_initializer(init, shape)
+    if sid is not None:
+        _SHARED[sid] = obj
+    return obj
+
+
+def _build_initializer(init: Spec, shape: tuple[int, ...]) -> Any:
     from cirkit.symbolic.initializers import (
         ConstantTensorInitializer,
         DirichletInitializer,
@@ -131,6 +146,7 @@ def build_hand(r: Spec) -> Any:
     from cirkit.utils.scope import Scope
 
     nv, k, K = r["nv"], r["k"], r["units"]
+    _SHARED.clear()
     layers: list[Any] = []
     in_layers: dict[Any, list[Any]] = {}
     tops: list[Any] = []
